@@ -2525,6 +2525,14 @@ class Evaluator:
                 return Const(float(args[0].value))
             except ValueError:
                 pass
+        if n == 'zip' and len(args) >= 2 and not kwargs:
+            # zip of evident sequences (literals, NamedTuple records) is the tuple of their columns
+            cols = [self._as_tuple(a.value if isinstance(a, GlobalVal) else a, self._cur_state or _State(), self._cur_depth or 0) for a in args]
+            if all(isinstance(c, TupleT) and c.kind in ('tuple', 'list') and not any(isinstance(x, Op) and x.op == '*' for x in c.items) for c in cols) and len({len(c.items) for c in cols}) == 1:
+                return TupleT(tuple(TupleT(tuple(c.items[i] for c in cols)) for i in range(len(cols[0].items))), 'tuple')
+        if n == 'enumerate' and len(args) == 1 and not kwargs and isinstance(args[0], TupleT) and args[0].kind in ('tuple', 'list') \
+                and not any(isinstance(x, Op) and x.op == '*' for x in args[0].items):
+            return TupleT(tuple(TupleT((Const(i), x)) for i, x in enumerate(args[0].items)), 'tuple')
         if n == 'tuple' and len(args) == 1 and isinstance(args[0], TupleT):
             return TupleT(args[0].items, 'tuple')
         if n == 'tuple' and len(args) == 1 and isinstance(args[0], Op) and args[0].op == '+' and any(isinstance(x, Call) or isinstance(x, TupleT) for x in args[0].args):
